@@ -83,7 +83,8 @@ def prim_values(t, text_max=20, year_lo=1, year_hi=9999, special_floats=True, de
 class ValueGen(object):
     """strategies of tagged-JSON values for trefs of universe U"""
 
-    def __init__(self, U, max_arr=3, poly=False, **prim_kw):
+    def __init__(self, U, max_arr=3, poly=False, full=False, **prim_kw):
+        self.full = full          # never None, never empty: "fully populated" objects
         self.U = U
         self.cspec = {c["name"]: c for c in U["classes"]}
         self.espec = {e["name"]: e for e in U["enums"]}
@@ -123,7 +124,8 @@ class ValueGen(object):
             # members of a wrapped array: spyne declares them minOccurs=0 maxOccurs=unbounded,
             # nillable per the member type
             elem = self.single(inner, depth + 1)
-            sizes = st.sampled_from([0, 1, 2, self.max_arr, self.max_arr] + ([12] if depth == 0 else []))
+            sizes = st.sampled_from(([] if self.full else [0]) + [1, 2, self.max_arr, self.max_arr]
+                                    + ([12] if depth == 0 else []))
             return sizes.flatmap(lambda n: st.lists(elem, min_size=n, max_size=n))
         if k == "ref":
             names = self.subclasses(t["n"]) if self.poly else [t["n"]]
@@ -145,6 +147,8 @@ class ValueGen(object):
         occ = t.get("occ") or {"min": 0, "max": 1, "nillable": True}
         mn, mx, nil = occ.get("min", 0), occ.get("max", 1), occ.get("nillable", True)
         if t["k"] in ("attr", "data"):
+            if self.full:
+                return self.single(t, depth)
             return st.one_of(st.none(), self.single(t, depth))
         one = self.single(t, depth)
         if not nil and t["k"] == "prim" and PRIM_KIND[t["t"]] == "bytes":
@@ -155,10 +159,10 @@ class ValueGen(object):
             top = self.max_arr if mx == "unbounded" else mx
             sizes = sorted(set(n for n in (mn, mn + 1, top, 2) if mn <= n <= top and n > 0))
             lst = st.sampled_from(sizes).flatmap(lambda n: st.lists(one, min_size=n, max_size=n))
-            if mn == 0:
+            if mn == 0 and not self.full:
                 return st.one_of(st.none(), lst, lst)
             return lst
-        can_none = (mn == 0) or nil
+        can_none = ((mn == 0) or nil) and not self.full
         if can_none and depth < 4:
             return st.one_of(st.none(), one, one, one)
         if can_none:
